@@ -20,7 +20,7 @@ type c12World struct {
 }
 
 var c12IDs = []store.NodeID{"a", "b", "c", ""}
-var c12Accounts = []store.Account{"W1", "W2"}
+var c12Accounts = []store.Account{"W1", "W2", ""}
 
 func c12Events(full bool) []string {
 	var evs []string
